@@ -1,6 +1,7 @@
 (* C02 property theorems ONLY (each closed by an already proved lemma) + assumptions. *)
 From Coq Require Import List ZArith Bool Reals Lra Lia.
-From RV Require Import Common.Num Common.RealNum C02.Model C02.Sums C02.Loops C02.Spec C02.Basic C02.Momentum C02.Merc.
+From RV Require Import Common.Num Common.RealNum C02.Model C02.Sums C02.Loops C02.Spec C02.Basic C02.Momentum C02.Merc C02.Comp C02.Torque C02.Jacobi C02.Lfun.
+From RV Require C04.Model C04.Proofs.
 Import ListNotations.
 Open Scope R_scope.
 
@@ -72,6 +73,74 @@ Print Assumptions C02_L_mercury_ends.
 Theorem C02_L_mercury_poly_monotone : forall y1 y2, 0 <= y1 -> y1 <= y2 -> y2 <= 1 -> Lpoly y1 <= Lpoly y2.
 Proof. exact Lpoly_mono. Qed.
 Print Assumptions C02_L_mercury_poly_monotone.
+
+(* ---------------- round 2 ---------------- *)
+(* REB_GRAVITY_COMPENSATED over R.  gravity_cs is zeroed at the start of every call (gravity.c, the loop
+   `cs[i].x = 0.` over i < N_real), so no hypothesis on its previous contents is needed; every Kahan correction
+   vanishes identically, the array ends as zeros, and each particle gets the specified sum = BASIC without ghosts. *)
+Theorem C02_compensated_cs_zero : forall G eps ign nact tp ps,
+  snd (grav_compensated RNum G eps ign nact tp ps) = repeat vzero (length ps).
+Proof. exact compensated_cs_zero. Qed.
+Print Assumptions C02_compensated_cs_zero.
+Theorem C02_compensated_eq_spec : forall G eps ign nact tp ps, (ign <= 2)%nat -> (nact <= length ps)%nat ->
+  forall k, (k < length ps)%nat ->
+  nth_d vzero (fst (grav_compensated RNum G eps ign nact tp ps)) k = acc_spec G eps 0 0 0 0 0 0 ign nact tp ps k.
+Proof. intros. rewrite acc_spec_noghost. now apply compensated_eq_spec. Qed.
+Print Assumptions C02_compensated_eq_spec.
+Theorem C02_compensated_eq_basic : forall G eps ign nact tp ps, (ign <= 2)%nat -> (nact <= length ps)%nat ->
+  forall bx by_ bz k, (k < length ps)%nat ->
+  nth_d vzero (fst (grav_compensated RNum G eps ign nact tp ps)) k =
+  nth_d vzero (grav_basic RNum G eps bx by_ bz 0 0 0 ign nact tp ps) k.
+Proof. exact compensated_eq_basic. Qed.
+Print Assumptions C02_compensated_eq_basic.
+
+(* All particles active, no ghost boxes: zero net force and zero net torque, sum m_i x_i x a_i = 0.
+   Obtained by showing that the loop nest IS a C04 pair list with back-reaction (C04.Model.pair_force), so that
+   C04's pair_force_zero (and with it C04's conservation theorems) applies to the real loops. *)
+Theorem C02_nest_is_c04_pair_force : forall (pf : nat -> nat -> R -> option R) (soft2 : R) (ps : list (Part R)) (tp : bool) (si sj : nat),
+  let n := length ps in
+  pair_loops RNum pf (fun i => i) None soft2 ps tp si sj n n (zeros RNum n) =
+  C04.Model.pair_force RNum (map lift ps) (flat_map (cpair pf soft2 ps) (pairs_of tp si sj n n)) /\
+  Forall (C04.Proofs.valid_pair (length (map lift ps))) (flat_map (cpair pf soft2 ps) (pairs_of tp si sj n n)).
+Proof. exact nest_is_pair_force. Qed.
+Print Assumptions C02_nest_is_c04_pair_force.
+Theorem C02_basic_force_torque_zero : forall G eps bx by_ bz ign tp ps,
+  let a := grav_basic RNum G eps bx by_ bz 0 0 0 ign (length ps) tp ps in
+  let qs := map lift ps in
+  C04.Proofs.Sa C04.Proofs.Fx qs a = 0 /\ C04.Proofs.Sa C04.Proofs.Fy qs a = 0 /\ C04.Proofs.Sa C04.Proofs.Fz qs a = 0 /\
+  C04.Proofs.Sa C04.Proofs.Tx qs a = 0 /\ C04.Proofs.Sa C04.Proofs.Ty qs a = 0 /\ C04.Proofs.Sa C04.Proofs.Tz qs a = 0.
+Proof. exact basic_force_torque_zero. Qed.
+Print Assumptions C02_basic_force_torque_zero.
+(* the same for any prefactor function (MERCURIUS mode 0 with any L, TRACE mode 0 with any K) *)
+Theorem C02_nest_force_torque_zero : forall (pf : nat -> nat -> R -> option R) (soft2 : R) (ps : list (Part R)) (tp : bool) (si sj : nat),
+  let a := pair_loops RNum pf (fun i => i) None soft2 ps tp si sj (length ps) (length ps) (zeros RNum (length ps)) in
+  let qs := map lift ps in
+  C04.Proofs.Sa C04.Proofs.Fx qs a = 0 /\ C04.Proofs.Sa C04.Proofs.Fy qs a = 0 /\ C04.Proofs.Sa C04.Proofs.Fz qs a = 0 /\
+  C04.Proofs.Sa C04.Proofs.Tx qs a = 0 /\ C04.Proofs.Sa C04.Proofs.Ty qs a = 0 /\ C04.Proofs.Sa C04.Proofs.Tz qs a = 0.
+Proof. exact nest_force_torque_zero. Qed.
+Print Assumptions C02_nest_force_torque_zero.
+
+(* REB_GRAVITY_JACOBI, every N, whatever the accelerations held before: particle k receives
+   (the specification with gravity_ignore_terms = 1, all particles active, no softening, no ghost boxes: every pair
+    except {0,1})  +  jacobi_terms k  =  sum over j >= 2, j >= k of  G * w * Q_j / |Q_j|^3  with
+   Q_j = x_j - R_j/M_j (R_j = sum_{i<j} m_i x_i, M_j = sum_{i<j} m_i), w = -m_j for k < j and w = M_j for k = j.
+   This is the split that WHFast composes: with REB_GRAVITY_BASIC + ignore_terms = 1 the same Jacobi terms are
+   added by reb_whfast_interaction_step instead (that equivalence, in Jacobi coordinates, is NOT proved here). *)
+Theorem C02_jacobi_decomp : forall G (ps : list (Part R)) (acc0 : list RV3) k,
+  length acc0 = length ps -> (k < length ps)%nat ->
+  nth_d vzero (grav_jacobi RNum G ps acc0) k =
+  vadd (acc_spec G 0 0 0 0 0 0 0 1 (length ps) true ps k) (jacobi_terms G ps k).
+Proof. intros. rewrite acc_spec_noghost. now apply jacobi_decomp. Qed.
+Print Assumptions C02_jacobi_decomp.
+
+(* the C4 / C5 changeover functions: range for all arguments, monotone polynomial pieces on [0,1] *)
+Theorem C02_L_C4_C5_range : forall d dc, 0 <= L_C4 RNum d dc <= 1 /\ 0 <= L_C5 RNum d dc <= 1.
+Proof. intros; split; [apply L_C4_range|apply L_C5_range]. Qed.
+Print Assumptions C02_L_C4_C5_range.
+Theorem C02_L_C4_C5_poly_monotone : forall y1 y2, 0 <= y1 -> y1 <= y2 -> y2 <= 1 ->
+  C4poly y1 <= C4poly y2 /\ C5poly y1 <= C5poly y2.
+Proof. intros; split; [now apply C4_mono|now apply C5_mono]. Qed.
+Print Assumptions C02_L_C4_C5_poly_monotone.
 
 (* Non-vacuity: a 4-body system with a zero-mass body, N_active = 2, ignore_terms = 1 meets the hypotheses,
    and the specified sum for the test particle 3 is not trivially zero. *)
